@@ -854,7 +854,18 @@ impl<P, U> Builder<P, U> {
     /// added to this builder (i.e. the transaction will carry an Orchard bundle).
     fn orchard_in_use(&self) -> bool {
         self.orchard_builder.as_ref().is_some_and(|b| {
-            !b.spends().is_empty() || !b.outputs().is_empty() || !b.changes().is_empty()
+            !b.spends().is_empty()
+                || !b.outputs().is_empty()
+                || !b.changes().is_empty()
+                // A bundle that is required even when empty is emitted (as dummy actions) and
+                // paid for, so it needs a transaction version that can carry it.
+                || matches!(
+                    b.bundle_type(),
+                    orchard::builder::BundleType::Transactional {
+                        bundle_required: true,
+                        ..
+                    }
+                )
         })
     }
 
@@ -862,7 +873,18 @@ impl<P, U> Builder<P, U> {
     /// added to this builder (i.e. the transaction will carry an Ironwood bundle).
     fn ironwood_in_use(&self) -> bool {
         self.ironwood_builder.as_ref().is_some_and(|b| {
-            !b.spends().is_empty() || !b.outputs().is_empty() || !b.changes().is_empty()
+            !b.spends().is_empty()
+                || !b.outputs().is_empty()
+                || !b.changes().is_empty()
+                // A bundle that is required even when empty is emitted (as dummy actions) and
+                // paid for, so it needs a transaction version that can carry it.
+                || matches!(
+                    b.bundle_type(),
+                    orchard::builder::BundleType::Transactional {
+                        bundle_required: true,
+                        ..
+                    }
+                )
         })
     }
 
